@@ -153,6 +153,12 @@ def build(desc):
         return U.DC(build(desc[1]), build(desc[2]), _meta(desc[3]))
     if t == 'dci':
         return U.DCI(build(desc[1]), build(desc[2]))
+    if t == 'ntc':
+        return U.NTC(build(desc[1]), build(desc[2]))
+    if t == 'cl':
+        return U.CL([build(c) for c in desc[1]])
+    if t == 'dsn':
+        return U.DSN([(k, build(c)) for k, c in desc[1]])
     if t == 'wrap':
         # ["wrap", "kind,kind,..", depth, inner]: `depth` nested one-child containers around inner (built iteratively)
         x = build(desc[3])
@@ -278,7 +284,7 @@ META = st.sampled_from([None, 'm', 3, ['tup', 1, 2]])
 
 
 ALL_KINDS = ('tuple', 'list', 'dict', 'od', 'dd', 'deque', 'nt', 'ss', 'cg', 'cn', 'cs', 'cm', 'cu',
-             'ci', 'dc', 'partial', 'cq', 'cp', 'dci')
+             'ci', 'dc', 'partial', 'cq', 'cp', 'dci', 'ntc', 'cl', 'dsn')
 _WEIGHT = {'tuple': 3, 'list': 3, 'dict': 4, 'od': 3, 'dd': 3, 'deque': 2, 'nt': 2}
 _LEAF = leaf_descs()
 _META = META
@@ -357,7 +363,7 @@ def _node(draw, budget, depth, keys, kinds, max_depth, leaf=None):
     if kind in ('cn', 'dc'):
         a, b = [rec(x) for x in _split(draw, max(budget, 2), 2)]
         return [kind, a, b, draw(_META)]
-    if kind in ('cs', 'dci'):
+    if kind in ('cs', 'dci', 'ntc'):
         a, b = [rec(x) for x in _split(draw, max(budget, 2), 2)]
         return [kind, a, b]
     if kind == 'cm':
@@ -372,6 +378,12 @@ def _node(draw, budget, depth, keys, kinds, max_depth, leaf=None):
         return ['fn', kids(3), draw(st.sampled_from([None, 1, 2]))]
     if kind == 'cq':
         return ['cq', kids(3)]
+    if kind == 'cl':
+        return ['cl', kids(4)]
+    if kind == 'dsn':
+        ch = kids(3)
+        names = draw(st.permutations(list('xyzw')))
+        return ['dsn', [[names[i], c] for i, c in enumerate(ch)]]
     if kind == 'cp':
         ch = kids(3)
         names = draw(st.permutations(list('xyzw')))
@@ -508,15 +520,15 @@ ARRAY_FACTORY = None
 def children_refs(desc):
     """[(container, index)] such that container[index] is a child tree description of this node"""
     t = desc[0]
-    if t in ('tuple', 'list', 'deque', 'cg', 'cu', 'ci', 'cq', 'fn'):
+    if t in ('tuple', 'list', 'deque', 'cg', 'cu', 'ci', 'cq', 'fn', 'cl'):
         return [(desc[1], i) for i in range(len(desc[1]))]
     if t in ('nt', 'ss'):
         return [(desc[2], i) for i in range(len(desc[2]))]
-    if t in ('dict', 'od', 'cm', 'cp'):
+    if t in ('dict', 'od', 'cm', 'cp', 'dsn'):
         return [(kc, 1) for kc in desc[1]]
     if t == 'dd':
         return [(kc, 1) for kc in desc[2]]
-    if t in ('cn', 'dc', 'cs', 'dci'):
+    if t in ('cn', 'dc', 'cs', 'dci', 'ntc'):
         return [(desc, 1), (desc, 2)]
     if t == 'wrap':
         return [(desc, 3)]
@@ -638,19 +650,19 @@ def near_miss(draw, desc):
             if e == 'list_tuple' and t in ('list', 'tuple'):
                 c[i] = ['tuple' if t == 'list' else 'list', n[1]]
                 return root[0], e
-            if e == 'arity_plus' and t in ('list', 'tuple', 'deque', 'cg', 'ci', 'cq'):
+            if e == 'arity_plus' and t in ('list', 'tuple', 'deque', 'cg', 'ci', 'cq', 'cl') and not (t == 'cl' and len(n[1]) >= 4):
                 n[1].append(['i', 7])
                 if t == 'deque':
                     n[3] = []
                 return root[0], e
-            if e == 'arity_minus' and t in ('list', 'tuple', 'cg', 'ci', 'cq') and n[1]:
+            if e == 'arity_minus' and t in ('list', 'tuple', 'cg', 'ci', 'cq', 'cl') and n[1]:
                 n[1].pop(draw(st.integers(0, len(n[1]) - 1)))
                 return root[0], e
-            if e in ('key_rename', 'key_add', 'key_remove') and t in ('dict', 'od', 'dd', 'cm', 'cp'):
+            if e in ('key_rename', 'key_add', 'key_remove') and t in ('dict', 'od', 'dd', 'cm', 'cp', 'dsn'):
                 items = n[2] if t == 'dd' else n[1]
                 if t in ('dict', 'od', 'dd') and any(op[0] == 'auto' for op in (n[3] if t == 'dd' else n[2])):
                     continue
-                fresh = 'qq' if t in ('cm', 'cp') else ['s', 'qq']
+                fresh = 'qq' if t in ('cm', 'cp', 'dsn') else ['s', 'qq']
                 if e == 'key_add':
                     items.append([fresh, ['i', 7]])
                     return root[0], e
